@@ -6,6 +6,8 @@ import (
 	"errors"
 	"fmt"
 	"io"
+	"os"
+	"syscall"
 )
 
 // ErrFault is the non-EOF error injected by fault readers.
@@ -49,9 +51,36 @@ func (c Chunking) FaultError() error {
 		return io.ErrUnexpectedEOF
 	case "closed-pipe":
 		return io.ErrClosedPipe
+	case "eintr":
+		return syscall.EINTR
+	case "wrapped-eintr":
+		return fmt.Errorf("read /dev/ttyUSB0: %w", syscall.EINTR)
+	case "eagain":
+		return syscall.EAGAIN
+	case "timeout":
+		return timeoutError{}
+	case "deadline":
+		return os.ErrDeadlineExceeded
+	case "no-progress":
+		return io.ErrNoProgress
+	case "path-error":
+		return &os.PathError{Op: "read", Path: "activity.fit", Err: syscall.EIO}
 	}
 	return ErrFault
 }
+
+// FaultErrKinds lists the values FaultErr can take besides "": the error
+// values real readers fail with (the identity of a reader's error must not
+// turn a failure into a success).
+var FaultErrKinds = []string{"unexpected-eof", "closed-pipe", "eintr", "wrapped-eintr", "eagain", "timeout", "deadline", "no-progress", "path-error"}
+
+// timeoutError is what a network connection's Read returns on a deadline: an
+// error that calls itself temporary.
+type timeoutError struct{}
+
+func (timeoutError) Error() string   { return "i/o timeout" }
+func (timeoutError) Timeout() bool   { return true }
+func (timeoutError) Temporary() bool { return true }
 
 // NoFault returns a chunking without cut or fault.
 func NoFault(kind string, size int) Chunking {
